@@ -196,6 +196,49 @@ def velFile (texts : List Str) (writeNan : Bool) (sts : List Station) : Option S
 def cluFile (texts : List Str) (keys : List Str) : Option Str :=
   fileOf (headerText "bernese_clu" texts) (cluBody keys)
 
+/-! ### SINEX-TMS TIMESERIES/DATA lines as lists of cells -/
+
+/-- `s` is a whitespace token: not empty, no blank inside (as `Text.Token` of Proofs/Split.lean) -/
+def isToken (t : Str) : Bool := !t.isEmpty && t.all (fun c => !isSpace c)
+
+/-- a data line as cells: `' '` followed by the formatted cells, no separator -/
+def tmsLineOf (cells : List (Spec × Value)) : Str := ' ' :: (cells.map fun sv => fmtValue sv.1 sv.2).flatten
+
+def rightAligned (sv : Spec × Value) : Bool := (sv.1.align.getD sv.2.defaultAlign) == Align.right
+
+/-- blanks a cell puts before / after its text -/
+def leftBlanks (sv : Spec × Value) : Str :=
+  if rightAligned sv then blanks (sv.1.width - (sv.2.text sv.1).length) else []
+def rightBlanks (sv : Spec × Value) : Str :=
+  if rightAligned sv then [] else blanks (sv.1.width - (sv.2.text sv.1).length)
+
+/-- the cells as (blanks before, token) pairs; `carry` are the blanks left over from what came before -/
+def toPads : Str → List (Spec × Value) → List (Str × Str) × Str
+  | carry, [] => ([], carry)
+  | carry, sv :: rest => ((carry ++ leftBlanks sv, sv.2.text sv.1) :: (toPads (rightBlanks sv) rest).1, (toPads (rightBlanks sv) rest).2)
+
+/-- every value text is a token (not empty, no blank inside); every cell but the first is right-aligned and leaves a
+blank (so does any cell before a left-aligned one — there is none after the first) -/
+def tmsCellsOk : List (Spec × Value) → Bool
+  | [] => true
+  | sv :: rest => isToken (sv.2.text sv.1) &&
+      rest.all (fun x => isToken (x.2.text x.1) && rightAligned x && decide ((x.2.text x.1).length < x.1.width))
+
+
+/-- the cells of a data line: spec of each column and the value formatted in it (`none`: unknown column, missing value,
+or a value the cell cannot format) -/
+def tmsCells (cols : List String) (vals : Env) : Option (List (Spec × Value)) :=
+  cols.mapM fun c => do
+    let sp ← specOf c
+    let v ← vals.lookup c
+    if v.okFor sp then pure (sp, v) else none
+
+/-- the range of the TIMESERIES/DATA round trip: every epoch's line has its cells and they are `tmsCellsOk` -/
+def tmsRowsInRange (cols : List String) (epochs : List Env) : Bool :=
+  epochs.all fun env => match tmsCells cols env with
+    | some cells => tmsCellsOk cells
+    | none => false
+
 /-! ### range predicates of the file-level round trips (decidable; evaluated by the driver on every generated case) -/
 
 /-- the positional values of a CRD line -/
@@ -214,6 +257,22 @@ def crdInRange (texts : List Str) (writeNan : Bool) (sts : List Station) : Bool 
    | some h => headerOk crdSpec h
    | none => false) &&
   (xyzEntries writeNan sts).all crdEntryOk
+
+/-- the positional values of a VEL line: those of the CRD line and the plate abbreviation -/
+def velVals (e : XyzEntry) (plate : Str) : List Value := crdVals e ++ [.str plate]
+
+def velEntryOk (e : XyzEntry) : Bool :=
+  match velPlate e.2.1 with
+  | some plate => valsOk crdSpec (rowOf "bernese_vel") (velVals e plate) && !(upper e.2.1.key).isEmpty
+  | none => false
+
+/-- **range of the Bernese VEL round trip** (the file is read with the library's CRD parser — there is no VEL parser):
+as `crdInRange`, with a known tectonic plate (or none) for every written station -/
+def velInRange (texts : List Str) (writeNan : Bool) (sts : List Station) : Bool :=
+  (match headerText "bernese_vel" texts with
+   | some h => headerOk crdSpec h
+   | none => false) &&
+  (xyzEntries writeNan sts).all velEntryOk
 
 /-- **range of the Bernese CLU round trip**, per station code: at most 4 characters once in upper case, not empty, no
 outer blanks, no `#`, no line break -/
